@@ -315,3 +315,15 @@ Proof.
       econstructor; [apply target_step_s_iff; exact E | apply IH; exact H].
     + inversion 1; subst. apply target_step_s_iff in H3. rewrite H3. apply IH; assumption.
 Qed.
+
+(* ---------- range operands ---------- *)
+Lemma range_operands_s_iff ts : range_operands_s ts = true <-> RangeOperands ts.
+Proof.
+  split.
+  - destruct ts as [|t [|t2 [|t3 [|t4 r]]]]; simpl; intro H; try discriminate H.
+    + destruct t; try discriminate H; eapply Ro_one; reflexivity.
+    + destruct t; try discriminate H; destruct t2; try discriminate H; constructor.
+    + destruct t; try discriminate H; destruct t2; try discriminate H; destruct t3; try discriminate H; constructor.
+    + destruct t; try discriminate H; destruct t2; try discriminate H; destruct t3; discriminate H.
+  - destruct 1; simpl; try reflexivity. destruct t; simpl in *; try discriminate; reflexivity.
+Qed.
